@@ -377,6 +377,48 @@ def leg_c06(pid, spec, leg, tier, seed):
         for v in rep.get("violations", []):
             v["replay_cmd"] = "WHOLE"
         L.reports.append(rep)
+    # thorough: a slice of the same programs under Miri (unchecked downcasts in Fetch::deref /
+    # FetchMut::deref_mut, guard mapping, unwinding through half-built tuples)
+    if tier == "thorough" and leg.get("miri", True):
+        menv = dict(env)
+        menv["MIRIFLAGS"] = MIRI_DEFAULT
+        menv["CARGO_TARGET_DIR"] = os.path.join(common.ROOT, "target-c06-miri")
+        mcmds, mouts = [], []
+        for k in range(0, parts, 2):
+            o = os.path.join(outdir, "miri_part_%d.json" % k)
+            if os.path.exists(o):
+                os.remove(o)
+            mcmds.append(["cargo", "+nightly", "miri", "run", "--offline", "-q", "--bin", "g%d" % k, "--", "--seed", str(seed), "--part", str(k), "--limit", "12", "--out", o])
+            mouts.append(o)
+        tm = time.time()
+        # the first one builds, the rest reuse the build
+        first = _run_procs(mcmds[:1], 900, env=menv, cwd=crate)
+        rest = _run_procs(mcmds[1:], 900, env=menv, cwd=crate) if first and first[0][0] == 0 else []
+        mi = {"types": 0, "presence_patterns": 0, "diagnostics": 0}
+        for (rc, dt, to, tail), o, c in zip(first + rest, mouts, mcmds):
+            if to:
+                L.inconclusive.append("c06 miri slice stopped by the watchdog")
+            elif rc != 0:
+                if "Undefined Behavior" in tail or "Data race detected" in tail or "memory leaked" in tail:
+                    firstl = [l for l in tail.splitlines() if l.startswith("error")]
+                    L.violations.append({"kind": "miri:" + (firstl[0][:120] if firstl else "diagnostic"), "msg": "Miri reported: " + tail[-1200:], "replay_cmd": "WHOLE"})
+                    mi["diagnostics"] += 1
+                else:
+                    L.inconclusive.append("c06 miri slice exited with %s: %s" % (rc, tail[-300:]))
+            else:
+                try:
+                    with open(o) as f:
+                        r = json.load(f)
+                    mi["types"] += r["metrics"]["types"]
+                    mi["presence_patterns"] += r["metrics"]["presence_patterns"]
+                    for v in r.get("violations", []):
+                        v["replay_cmd"] = "WHOLE"
+                        v["leg"] = "c06-miri"
+                        L.violations.append(v)
+                except Exception as e:
+                    L.inconclusive.append("c06 miri slice: unreadable report: %s" % e)
+        mi["wall_s"] = round(time.time() - tm, 1)
+        L.info["miri_slice"] = mi
     L.info["wall_s"] = round(time.time() - t0, 2)
     L.info["build"] = "c06"
     return L
